@@ -24,8 +24,8 @@ CLAIMED["C06"] = ("proof", CLAIMED["C12"][1],
     "set-algebra contracts on the real bodies ('+' helpers, used/unused getters, classification loops of FileReport.generate, bad/deprecated loop of ProjectReport.generate, _identifier_of_license), lemmas for the cross-consistency of missing/unused/bad taken from the statement, and a finite exhaustive obligation over the bundled SPDX lists; one listed known finding (LicenseRef- classed bad)",
     "assumes the license_map invariant established by _find_licenses (loop body not under contract), Licensing.license_keys, pathlib suffix/stem/name", "4.6")
 CLAIMED["C04"] = ("proof", CLAIMED["C12"][1],
-    "contracts on the real bodies of _determine_license_path, Project.reuse_info_of (against a specification written from the statement, pointwise for an arbitrary value/source/source-type triple), ReuseTOML.find_annotations_item (last match), ReuseTOML.reuse_info_of and NestedReuseTOML.reuse_info_of (exception freedom, nearest-provider clean-up with step lemmas)",
-    "assumes reuse_info_of_file (C02), the REUSE.toml finder's ordering, pathlib relations; the walk loop's list contents and ReuseDep5.reuse_info_of are not under contract", "4.4")
+    "contracts on the real bodies of _determine_license_path, Project.reuse_info_of (against a specification written from the statement, pointwise for an arbitrary value/source/source-type triple; override: exactly the override, aggregate and closest tables), ReuseTOML.find_annotations_item (last match), ReuseTOML.reuse_info_of and NestedReuseTOML.reuse_info_of (exception freedom, nearest-provider clean-up with step lemmas)",
+    "assumes reuse_info_of_file (C02) and pathlib relations; the REUSE.toml finder's ordering and the walk loop are exercised by the bounded nested-chain trees only; ReuseDep5.reuse_info_of is not under contract", "4.4")
 CLAIMED["C13"] = ("proof", CLAIMED["C12"][1] + "; bounded enumeration of synthetic reports through the real formatters",
     "contracts on the real bodies behind the exit statuses (is_compliant, the lint callback on all four output branches, ProjectSubsetReport.generate / is_compliant / files_without_*, the lint-file callback: exit 1 iff a line is printed); the agreement of the rendered texts and the JSON counters is exercised by a bounded enumeration (labelled bounded)",
     "formatter loops are not under contract (bounded check only); json.dumps / click.echo assumed", "4.13")
